@@ -218,6 +218,11 @@ def valid_mutation(K, rng, slot=0):
         return o
     if r < 0.4:
         o = {"op": "ci_set", "sec": "compose", "field": "respin", "value": rng.randint(3, 9)}
+    elif r < 0.5 and K["compose"].get("label"):
+        # the milestone label is taken back (a respin without one): label AND final leave the document
+        o = {"op": "ci_set", "sec": "compose", "field": "label", "value": None}
+    elif r < 0.5:
+        o = {"op": "ci_set", "sec": "compose", "field": "label", "value": pick(rng, ["RC-1.0", "Beta-2.3", "Update-1.0"])}
     elif r < 0.7:
         o = {"op": "ci_set", "sec": "release", "field": "name", "value": pick(rng, pools.NAMES) + " II"}
     elif K["vars"]:
@@ -233,7 +238,7 @@ def valid_mutation(K, rng, slot=0):
 CI_POISON = [
     # (sec, field, bad values)
     ("compose", "id", [None, 123, "", "abc", "F-20-2015.0"]),
-    ("compose", "date", [None, 20150522, "2015", "2015052a", "201505221", ""]),
+    ("compose", "date", [None, 20150522, "2015", "2015052a", "201505221", "", "2015052", "201552", "20150522 "]),
     ("compose", "type", [None, "prod", "Production", "", 3]),
     ("compose", "respin", [None, "0", 1.5]),
     ("compose", "label", pools.LABELS_BAD),
@@ -287,7 +292,12 @@ def poison_sites(K):
                 sites.append({"kind": "var", "var": v["n"], "field": f, "bad": b, "good": v[f]})
         if v["parent"] is not None:
             p = K["vars"][v["parent"]]
-            for fa in pools.foreign_arches(p["arches"], v["arches"])[:4]:
+            # an arch that a variant FURTHER UP has and the direct parent lacks is as foreign as any other
+            up, q = [], p
+            while q["parent"] is not None:
+                q = K["vars"][q["parent"]]
+                up.extend(a for a in q["arches"] if a not in p["arches"] and a not in v["arches"] and a not in up)
+            for fa in up[:2] + pools.foreign_arches(p["arches"], v["arches"])[:4]:
                 sites.append({"kind": "var", "var": v["n"], "field": "arches", "bad": sorted(v["arches"] + [fa]), "good": v["arches"]})
         sites.append({"kind": "var-inplace", "var": v["n"], "how": "clear", "good": v["arches"]})
         if not any(c["parent"] == v["n"] for c in K["vars"]) and not v["dashed"]:
@@ -298,7 +308,7 @@ def poison_sites(K):
                               "good": {"id": v["id"], "uid": v["uid"]}})
         if v["parent"] is not None:
             p = K["vars"][v["parent"]]
-            for fa in pools.foreign_arches(p["arches"], v["arches"])[:3]:
+            for fa in up[:1] + pools.foreign_arches(p["arches"], v["arches"])[:3]:
                 sites.append({"kind": "var-inplace", "var": v["n"], "how": "add", "value": fa, "good": v["arches"]})
         if v["type"] == "layered-product":
             for f, bads in VAR_REL_POISON:
